@@ -1,4 +1,5 @@
-(* Exec/RunC04.v — dispatcher for the quaternion functions of C04 / C05 / C14 (src/quaternion.rs). *)
+(* Exec/RunC04.v — dispatcher for the quaternion functions of C04 / C05 / C14 (src/quaternion.rs).
+   Generic in the scalar (section G); run at Qc by the correspondence check, at an abstract field by the symbolic tie. *)
 From Coq Require Import ZArith QArith Qcanon List Bool Ascii String.
 From CG Require Import Scalar Model.Vector Model.Point Model.Matrix Model.Angle Model.Quaternion Model.Metric Model.Rotation
                        Exec.ExecQ Exec.Args Exec.RunC01.
@@ -6,45 +7,53 @@ Import ListNotations.
 Open Scope string_scope.
 Set Implicit Arguments.
 
-Definition oq (q : Quat Qc) := vq (quat_sxyz q).
-Local Notation rq := (@rd_quat Qc).
-Local Notation r3 := (@rd_v3 Qc).
-Local Notation rp3 := (@rd_p3 Qc).
-Local Notation rm3 := (@rd_m3 Qc).
-Local Notation rs := (@rd_s Qc).
+Definition gq {F} (q : Quat F) : gval F := GQ (quat_sxyz q).
 
-Definition tab_c04 (o : Orc) : list (string * (list Qc -> val)) :=
-  let T := TrigQ o in [
-  ("q_new", run1 rq oq);
-  ("q_from_sv", run2 rs r3 (fun s v => oq (quat_from_sv s v)));
-  ("q_mul", run2 rq rq (fun a b => oq (quat_mul O a b)));
-  ("q_mul_v", run2 rq r3 (fun q v => ov3 (quat_mul_v O q v)));
-  ("q_conjugate", run1 rq (fun q => oq (quat_conjugate O q)));
-  ("q_neg", run1 rq (fun q => oq (quat_neg O q)));
-  ("q_add", run2 rq rq (fun a b => oq (quat_add O a b)));
-  ("q_sub", run2 rq rq (fun a b => oq (quat_sub O a b)));
-  ("q_mul_s", run2 rq rs (fun a s => oq (quat_mul_s O a s)));
-  ("q_div_s", run2 rq rs (fun a s => oq (quat_div_s O a s)));
-  ("q_rem_s", run2 rq rs (fun a s => oq (quat_rem_s O a s)));
-  ("q_dot", run2 rq rq (fun a b => os (quat_dot O a b)));
-  ("q_magnitude2", run1 rq (fun a => os (quat_magnitude2 O a)));
-  ("q_one", run0 (S:=Qc) (oq (quat_one O)));
-  ("q_zero", run0 (S:=Qc) (oq (quat_zero O)));
-  ("q_invert", run1 rq (fun q => oq (quat_invert O q)));
-  ("q_rotate_vector", run2 rq r3 (fun q v => ov3 (quat_rotate_vector O q v)));
-  ("q_rotate_point", run2 rq rp3 (fun q p => op3 (quat_rotate_point O q p)));
-  ("q_lerp", run3 rq rq rs (fun a b t => oq (quat_lerp O a b t)));
-  (* C05 *)
-  ("m3_of_quat", run1 rq (fun q => om3 (m3_of_quat O q)));
-  ("m4_of_quat", run1 rq (fun q => om4 (m4_of_quat O q)));
-  ("basis3_of_quat", run1 rq (fun q => om3 (basis3_from_quaternion O q)));
-  ("quat_of_m3", run1 rm3 (fun m => oq (quat_of_m3 O T m)));
-  ("quat_of_basis3", run1 rm3 (fun m => oq (quat_of_basis3 O T m)));
-  ("basis3_mul", run2 rm3 rm3 (fun a b => om3 (basis3_mul O a b)));
-  ("basis3_rotate_vector", run2 rm3 r3 (fun b v => ov3 (basis3_rotate_vector O b v)));
-  ("m3_rotate_vector", run2 rm3 r3 (fun b v => ov3 (m3_mul_v O b v)));
-  ("m4_rotate_direction", run2 (@rd_m4 Qc) r3 (fun b v => ov3 (m4_transform_vector O b v)))
-].
+Section G.
+  Variable F : Type.
+  Variable O : Ops F.
+  Variable T : Trig F.
+  Local Notation rq := (@rd_quat F).
+  Local Notation r3 := (@rd_v3 F).
+  Local Notation rp3 := (@rd_p3 F).
+  Local Notation rm3 := (@rd_m3 F).
+  Local Notation rs := (@rd_s F).
+
+  Definition gtab_c04 : list (string * (list F -> gval F)) := [
+    ("q_new", grun1 rq gq);
+    ("q_from_sv", grun2 rs r3 (fun s v => gq (quat_from_sv s v)));
+    ("q_mul", grun2 rq rq (fun a b => gq (quat_mul O a b)));
+    ("q_mul_v", grun2 rq r3 (fun q v => gv3 (quat_mul_v O q v)));
+    ("q_conjugate", grun1 rq (fun q => gq (quat_conjugate O q)));
+    ("q_neg", grun1 rq (fun q => gq (quat_neg O q)));
+    ("q_add", grun2 rq rq (fun a b => gq (quat_add O a b)));
+    ("q_sub", grun2 rq rq (fun a b => gq (quat_sub O a b)));
+    ("q_mul_s", grun2 rq rs (fun a s => gq (quat_mul_s O a s)));
+    ("q_div_s", grun2 rq rs (fun a s => gq (quat_div_s O a s)));
+    ("q_rem_s", grun2 rq rs (fun a s => gq (quat_rem_s O a s)));
+    ("q_dot", grun2 rq rq (fun a b => gs (quat_dot O a b)));
+    ("q_magnitude2", grun1 rq (fun a => gs (quat_magnitude2 O a)));
+    ("q_one", grun0 (S:=F) (gq (quat_one O)));
+    ("q_zero", grun0 (S:=F) (gq (quat_zero O)));
+    ("q_invert", grun1 rq (fun q => gq (quat_invert O q)));
+    ("q_rotate_vector", grun2 rq r3 (fun q v => gv3 (quat_rotate_vector O q v)));
+    ("q_rotate_point", grun2 rq rp3 (fun q p => gp3 (quat_rotate_point O q p)));
+    ("q_lerp", grun3 rq rq rs (fun a b t => gq (quat_lerp O a b t)));
+    (* C05 *)
+    ("m3_of_quat", grun1 rq (fun q => gm3 (m3_of_quat O q)));
+    ("m4_of_quat", grun1 rq (fun q => gm4 (m4_of_quat O q)));
+    ("basis3_of_quat", grun1 rq (fun q => gm3 (basis3_from_quaternion O q)));
+    ("quat_of_m3", grun1 rm3 (fun m => gq (quat_of_m3 O T m)));
+    ("quat_of_basis3", grun1 rm3 (fun m => gq (quat_of_basis3 O T m)));
+    ("basis3_mul", grun2 rm3 rm3 (fun a b => gm3 (basis3_mul O a b)));
+    ("basis3_rotate_vector", grun2 rm3 r3 (fun b v => gv3 (basis3_rotate_vector O b v)));
+    ("m3_rotate_vector", grun2 rm3 r3 (fun b v => gv3 (m3_mul_v O b v)));
+    ("m4_rotate_direction", grun2 (@rd_m4 F) r3 (fun b v => gv3 (m4_transform_vector O b v)))
+  ].
+End G.
+
+Definition oq (q : Quat Qc) := vq (quat_sxyz q).
+Definition tab_c04 (o : Orc) : list (string * (list Qc -> val)) := qtab (gtab_c04 OpsQ (TrigQ o)).
 
 Definition run_c04 : runner := fun f o args =>
   match dispatch (tab_c04 o) f with Some h => h args | None => VBad end.
